@@ -10,6 +10,7 @@ pub mod c10;
 pub mod c11;
 pub mod c12;
 pub mod c17;
+pub mod c17arena;
 pub mod env;
 pub mod mods;
 pub mod ops;
